@@ -71,6 +71,11 @@ func decodeDataSegment(r *bytes.Reader, enabledFeatures api.CoreFeatures, ret *w
 		return
 	}
 
+	// Do not allocate for a declared size that the remaining input cannot hold.
+	if err = checkRemaining(r, uint64(vs)); err != nil {
+		err = fmt.Errorf("read bytes for init: %v", err)
+		return
+	}
 	ret.Init = make([]byte, vs)
 	if _, err = io.ReadFull(r, ret.Init); err != nil {
 		err = fmt.Errorf("read bytes for init: %v", err)
